@@ -606,6 +606,33 @@ def _grammar(ctx, model, table):
                 check(f"T/c-grammar/{P}.{posname(P, pos)}<-{C}**1", mk(P, kids),
                       {"parent": P, "position": posname(P, pos),
                        "child": f"Power({C}, 1)"})
+    # u**2 is written as a product of two copies of u: each copy needs the
+    # parentheses u would get as a factor (a remainder, a quotient, a sum),
+    # and the square those of a product -- under every parent, every position
+    for P, ar in KINDS.items():
+        for pos in range(ar):
+            for C in KINDS:
+                vs = iter(V)
+                kids = [next(vs) for _ in range(ar)]
+                kids[pos] = ("Power", mk(C, [next(vs) for _ in range(KINDS[C])]),
+                             ("Const", 2))
+                n += 1
+                check(f"T/c-grammar/{P}.{posname(P, pos)}<-{C}**2", mk(P, kids),
+                      {"parent": P, "position": posname(P, pos),
+                       "child": f"Power({C}, 2)"})
+    # comparisons in comparisons: C has two levels (relational above equality)
+    # where Python has one
+    for po in ("<", "=="):
+        for co in ("<", "==", "!=", ">="):
+            for pos in (0, 1):
+                vs = iter(V)
+                kids = [next(vs), next(vs)]
+                kids[pos] = ("Comparison", next(vs), co, next(vs))
+                n += 1
+                check(f"T/c-grammar/Comparison[{po}].{posname('Comparison', pos)}"
+                      f"<-Comparison[{co}]", ("Comparison", kids[0], po, kids[1]),
+                      {"parent": f"Comparison {po}", "child": f"Comparison {co}",
+                       "position": posname("Comparison", pos)})
     # subtraction rewrite and constant exponents
     a, b, c, d = V[:4]
     extra = {
